@@ -30,6 +30,7 @@
 #include <stdio.h>
 #include <ctype.h>
 #include <iostream>
+#include <limits>
 
 #include "soplex/spxdefines.h"
 #include "soplex/spxout.h"
@@ -1391,6 +1392,21 @@ syntax_error:
 // Specialization for reading MPS format
 // ---------------------------------------------------------------------------------------------------------------------
 
+/// Converts a number in a field of an MPS file; a value that is not finite (nan, inf, an overflowing exponent) is a syntax error.
+static inline Real MPSreadValue(MPSInput& mps, const char* field)
+{
+   Real val = atof(field);
+
+   if(!(val > -std::numeric_limits<Real>::infinity() && val < std::numeric_limits<Real>::infinity()))
+   {
+      mps.syntaxError();
+      val = 0.0;
+   }
+
+   return val;
+}
+
+
 /// Process NAME section.
 static inline void MPSreadName(MPSInput& mps, SPxOut* spxout)
 {
@@ -1637,7 +1653,7 @@ static void MPSreadCols(MPSInput& mps, const LPRowSetBase<R>& rset, const NameSe
          }
       }
 
-      val = atof(mps.field3());
+      val = MPSreadValue(mps, mps.field3());
 
       if(!strcmp(mps.field2(), mps.objName()))
          col.setObj(val);
@@ -1655,7 +1671,7 @@ static void MPSreadCols(MPSInput& mps, const LPRowSetBase<R>& rset, const NameSe
       {
          assert(mps.field4() != nullptr);
 
-         val = atof(mps.field5());
+         val = MPSreadValue(mps, mps.field5());
 
          if(!strcmp(mps.field4(), mps.objName()))
             col.setObj(val);
@@ -1728,7 +1744,7 @@ static void MPSreadRhs(MPSInput& mps, LPRowSetBase<R>& rset, const NameSet& rnam
             mps.entryIgnored("RHS", mps.field1(), "row", mps.field2());
          else
          {
-            val = atof(mps.field3());
+            val = MPSreadValue(mps, mps.field3());
 
             // LE or EQ
             if(rset.rhs(idx) < R(infinity))
@@ -1745,7 +1761,7 @@ static void MPSreadRhs(MPSInput& mps, LPRowSetBase<R>& rset, const NameSet& rnam
                mps.entryIgnored("RHS", mps.field1(), "row", mps.field4());
             else
             {
-               val = atof(mps.field5());
+               val = MPSreadValue(mps, mps.field5());
 
                // LE or EQ
                if(rset.rhs(idx) < R(infinity))
@@ -1817,7 +1833,7 @@ static void MPSreadRanges(MPSInput& mps,  LPRowSetBase<R>& rset, const NameSet& 
             mps.entryIgnored("Range", mps.field1(), "row", mps.field2());
          else
          {
-            val = atof(mps.field3());
+            val = MPSreadValue(mps, mps.field3());
 
             // EQ
             if((rset.lhs(idx) > R(-infinity)) && (rset.rhs_w(idx) <  R(infinity)))
@@ -1846,7 +1862,7 @@ static void MPSreadRanges(MPSInput& mps,  LPRowSetBase<R>& rset, const NameSet& 
                mps.entryIgnored("Range", mps.field1(), "row", mps.field4());
             else
             {
-               val = atof(mps.field5());
+               val = MPSreadValue(mps, mps.field5());
 
                // EQ
                if((rset.lhs(idx) > R(-infinity)) && (rset.rhs(idx) <  R(infinity)))
@@ -1941,7 +1957,7 @@ static void MPSreadBounds(MPSInput& mps, LPColSetBase<R>& cset, const NameSet& c
                     || !strcmp(mps.field4(), "+Inf") || !strcmp(mps.field4(), "+inf"))
                val = R(infinity);
             else
-               val = atof(mps.field4());
+               val = MPSreadValue(mps, mps.field4());
 
             // ILOG extension (Integer Bound)
             if((mps.field1()[0] == 'L' || mps.field1()[0] == 'U') && mps.field1()[1] == 'I')
